@@ -386,6 +386,8 @@ EXPR_WRAPPERS = {
     ('goal.rs::Goal::key', 'format!("{}/{}", functor, arity)'): 'fmt_key(functor, arity)',
     ('unifiable.rs::Unifiable::key', 'format!("{}/{}", functor, arity)'): 'fmt_key(functor, arity)',
     # print_list: what is written keeps its text (spec/print.rs)
+    ('built_in_print_list.rs::format_slist', 'out += &format!("{}", t);'): 'str_append_disp(&mut out, t, false);',
+    ('built_in_print_list.rs::format_slist', 'out += &format!(", {}", ground);'): 'str_append_disp(&mut out, ground, true);',
     ('built_in_print_list.rs::next_solution_print_list', 'print!(",\\n");'): 'verif_print_sep(Tracked(heap));',
     ('built_in_print_list.rs::next_solution_print_list', 'println!("{}", s);'): 'verif_println_string(&s, Tracked(heap));',
     ('built_in_print_list.rs::next_solution_print_list', 'println!("{}", term);'): 'verif_println_term(&term, Tracked(heap));',
